@@ -121,6 +121,14 @@ def _build():
     seq2 = make_sequence(cf2, P.build_pictures(cf2, [("noise", "noise", "noise", 9)], None))
     seq1 = make_sequence(cf, P.build_pictures(cf, [("noise", "noise", "noise", 3)], None))
     entries.append(dict(name="two_sequences", cf=cf, data=S.serialise_stream(B.Stream(sequences=[seq1, seq2]))))
+    # two sequences with the same transform / slice parameters but different picture sizes and chroma formats
+    cfa = base_cf(picture_bytes=40)
+    cfb = base_cf(picture_bytes=40, vp=dict(frame_width=16, frame_height=8, color_diff_format_index=C422))
+    sqa = make_sequence(cfa, P.build_pictures(cfa, [("noise", "noise", "noise", 41)], None))
+    sqb = make_sequence(cfb, P.build_pictures(cfb, [("noise", "noise", "noise", 42)], None))
+    # (serialised one by one and concatenated, which is a conformant stream as well: the corpus itself should not depend
+    # on one serialiser run getting several formats right -- that is for the round-trip checks to find out)
+    entries.append(dict(name="two_formats", cf=cfa, data=S.serialise_stream(B.Stream(sequences=[sqa])) + S.serialise_stream(B.Stream(sequences=[sqb]))))
     # picture-less sequences (sequence header + end of sequence), both profiles
     for nm, c in (("hq_empty", cf), ("ld_empty", base_cf(profile=LD, picture_bytes=16))):
         entries.append(dict(name=nm, cf=c, data=S.serialise_stream(B.Stream(sequences=[make_sequence(c, [])]))))
